@@ -7,7 +7,7 @@ From JV Require Import Gen.Consts Model.TT.
 Extraction Language OCaml.
 From JV Require Import Spec.TTSpec.
 From JV Require Import Model.Go.
-From JV Require Import Spec.Rays Model.Chess Model.Eval Spec.ChessSpec Model.Abs Model.Sym Model.Search Model.SearchChess Model.Monitors Spec.Minimax Model.Fen Model.Uci.
+From JV Require Import Spec.Rays Model.Chess Model.Eval Spec.ChessSpec Model.Abs Model.Sym Model.Search Model.SearchChess Model.Monitors Spec.Minimax Model.Fen Model.FenSyntax Model.Uci.
 Extraction "Extract/model.ml" TT.run_reqs TT.table TT.probe TTSpec.monitor Go.parse_go
   Rays.slide Rays.leaper Rays.rook_dirs Rays.bishop_dirs Rays.knight_offs Rays.king_offs Rays.wpawn_offs Rays.bpawn_offs
   Chess.generate_moves Chess.is_legal Chess.make_search_move Chess.make_zobrist_hash Chess.is_in_check Chess.null_move
@@ -15,4 +15,4 @@ Extraction "Extract/model.ml" TT.run_reqs TT.table TT.probe TTSpec.monitor Go.pa
   Abs.abs Abs.umove Abs.mon_legal_set Abs.mon_capture_set Abs.mon_make Abs.spec_perft Abs.spec_in_check Abs.occ_ok Abs.move_fits Abs.nkc_b Abs.legal_inv_b Sym.mirror Sym.men16_b Sym.prow2_b ChessSpec.legal_moves ChessSpec.checkmate ChessSpec.stalemate Abs.wf
   SearchChess.c_search SearchChess.render_out SearchChess.to_uci
   Monitors.mon_nodes Monitors.mon_frame Monitors.mon_cadence Monitors.legal_line Monitors.mon_pv Monitors.mon_bestmove Monitors.spec_has_legal Monitors.spec_legal_line Monitors.spec_mates_in Monitors.spec_mated_in Monitors.spec_line_mates
-  Minimax.minimax_fast Fen.new_from_fen Fen.parse_position Uci.uci_session.
+  Minimax.minimax_fast FenSyntax.fen_describes Fen.new_from_fen Fen.parse_position Uci.uci_session.
